@@ -29,7 +29,14 @@ from txtorcon.endpoints import TorClientEndpoint, _create_socks_endpoint
 
 PROPERTY = 'C18'
 
-ENTRIES = ['9050', '127.0.0.1:9051', 'unix:/s', '9052 IsolateDestAddr', '9053 IPv6Traffic PreferIPv6', 'unix:/t WorldWritable']
+ENTRIES = ['9050', '127.0.0.1:9051', 'unix:/s', '9052 IsolateDestAddr', '9053 IPv6Traffic PreferIPv6', 'unix:/t WorldWritable',
+           'auto IsolateDestAddr', '[::1]:9060 IsolateSOCKSAuth']
+
+
+def client_can_use(e):
+    """legal SOCKSPort lines this client cannot turn into an endpoint: they are not 'usable', but must survive a re-listing"""
+    tok = e.split()[0]
+    return not (tok == 'auto' or tok.startswith('['))
 ENTRY_POINTS = ['create', 'from_connection', 'tor_default', 'config_create']
 
 
@@ -38,7 +45,9 @@ def existing_configs(tier):
     nmax = 3
     for n in range(1, nmax + 1):
         for p in itertools.permutations(ENTRIES, n):
-            if tier == 'quick' and n == 3 and not (p[0] < p[1]):
+            if tier == 'quick' and n == 3 and not (p[0] < p[1] < p[2]):
+                continue
+            if tier == 'quick' and n == 2 and not (p[0] < p[1]) and client_can_use(p[0]) and client_can_use(p[1]) and ' ' not in p[0] + p[1]:
                 continue
             out.append(('list', list(p)))
     return out
@@ -99,8 +108,8 @@ def run_choose(kind, entries, requested, entry_point):
                 tor = Tor(w.reactor, proto)
                 d = tor._default_socks_endpoint()
             else:
-                if requested is None and not effective:
-                    return None        # documented: create_socks_endpoint(None) needs an existing port
+                if requested is None and (not effective or not client_can_use(effective[0])):
+                    return None        # documented: create_socks_endpoint(None) means "the very first SOCKSPort"; it must exist and be usable
                 d = impl.cfg.create_socks_endpoint(w.reactor, requested)
         except Exception as e:
             viol.append(('raised', type(e).__name__, '%r' % (e,)))
@@ -110,8 +119,10 @@ def run_choose(kind, entries, requested, entry_point):
         cmds = sim.commands[base:]
         setconfs = [c for c in cmds if c.upper().startswith('SETCONF')]
         feat_cfg = kind if kind != 'list' else ('n=%d%s' % (len(entries), '/opts' if any(' ' in e for e in entries) else ''))
-        feat = '%s/%s/%s' % (entry_point, feat_cfg, 'req-none' if requested is None else ('req-present' if any(e.split()[0] == requested for e in effective) else 'req-absent'))
-        usable = [e for e in effective if requested is None or e.split()[0] == requested]
+        feat = '%s/%s/%s' % (entry_point, feat_cfg, 'req-none' if requested is None else
+                             ('req-present-line' if requested in effective and ' ' in requested else
+                              ('req-present' if any(e.split()[0] == requested for e in effective) else 'req-absent')))
+        usable = [e for e in effective if client_can_use(e) and (requested is None or requested in (e, e.split()[0]))]
         if len(rec.fires) != 1:
             viol.append(('result-fired-%d-times' % len(rec.fires), feat, 'existing %r requested %r' % (entries, requested)))
         elif rec.kind == 'err':
@@ -155,7 +166,7 @@ def run_choose(kind, entries, requested, entry_point):
                         break
         if w.reactor.open_ports():
             viol.append(('probe-port-left-open', feat, '%r' % (w.reactor.open_ports(),)))
-        errs = w.errors()
+        errs = [e for e in w.errors() if 'failed to process SOCKS port' not in e[0]]
         if errs:
             viol.append(('logged-error', errs[0][1], '%r' % (errs[:1],)))
         obs = (tuple(setconfs), rec.summary()[0], describe(rec.value) if rec.kind == 'ok' else None)
@@ -275,7 +286,8 @@ def run_task(param, acc):
     r = None
     for kind, entries in cfgs:
         effective = entries or (['9050'] if kind == 'default' else [])
-        reqs = [None] + sorted(set(e.split()[0] for e in effective)) + ['9999', '905']
+        reqs = [None] + sorted(set(e.split()[0] for e in effective if client_can_use(e))) + \
+            sorted(e for e in effective if ' ' in e and client_can_use(e)) + ['9999', '905']
         for requested in reqs:
             for ep in ENTRY_POINTS:
                 r2 = run_choose(kind, entries, requested, ep)
